@@ -1,5 +1,8 @@
 import XixiKV.Model.Batch
 import XixiKV.Drv.ShardIter
+import XixiKV.Drv.Datatype
+import XixiKV.Model.Conc
+import XixiKV.Model.Lockset
 /-!
 Line-protocol driver of the Lean model: one operation per input line, one canonical result per
 output line — the same lines `harness/cmd/xkv run` consumes and produces for the real engine.
@@ -100,6 +103,7 @@ structure DState where
   iters : List (String × Iter)
   df : Option DfSess := none
   ix : XixiKV.ShardIter.Drv.DrvState := XixiKV.ShardIter.Drv.DrvState.init
+  dt : XixiKV.Datatype.Drv.DrvState := XixiKV.Datatype.Drv.DrvState.init
 
 def itGet (l : List (String × Iter)) (id : String) : Option Iter := (l.find? (·.1 = id)).map (·.2)
 def itSet (l : List (String × Iter)) (id : String) (it : Iter) : List (String × Iter) :=
@@ -307,6 +311,8 @@ def stepMain (ds : DState) (toks : List String) : DState × String :=
     else if file.endsWith ".merge-finished" then
       ({ ds with st := { s with world := s.world.set d { dir with marker := some bytes } } }, "ok")
     else (ds, "?")
+  | ["mkdir", d] =>
+    if (s.world.get d).isSome then (ds, "ok") else ({ ds with st := { s with world := s.world.set d DirSt.empty } }, "ok")
   | ["rmdir", d] => ({ ds with st := { s with world := s.world.remove d } }, "ok")
   | ["trunc", d, file, n] =>
     match s.world.get d with
@@ -353,6 +359,17 @@ def stepMain (ds : DState) (toks : List String) : DState × String :=
 
 def step (ds : DState) (line : String) : DState × String :=
   match line.splitOn " " |>.filter (· ≠ "") with
+  | "conc" :: flags :: rest =>
+    -- model prediction for a forced schedule: flags = three chars 0/1 (putIndexInLock, delCheckInLock,
+    -- delIndexInLock) or "gen" = the shape computed from the generated lockset table
+    let sh : XixiKV.Conc.Shape :=
+      if flags = "gen" then XixiKV.Lockset.shapeOf XixiKV.Generated.locksetTable
+      else match flags.toList with
+        | [a, b, c] => ⟨a = '1', b = '1', c = '1'⟩
+        | _ => XixiKV.Conc.Shape.allTrue
+    match XixiKV.Conc.parseSchedule (" ".intercalate rest) with
+    | some sc => (ds, (XixiKV.Conc.run sh sc).render)
+    | none => (ds, "bad:schedule")
   | ["geom", o, n] =>
     -- writeToBuf geometry for a file whose writer state is (0, o) and a payload of n bytes
     let g := geom o.toNat! n.toNat!
@@ -362,6 +379,10 @@ def step (ds : DState) (line : String) : DState × String :=
     else if op.startsWith "ix." ∨ op.startsWith "ixit." then
       match XixiKV.ShardIter.Drv.step ds.ix (op :: a) with
       | some (ix', out) => ({ ds with ix := ix' }, out)
+      | none => (ds, "?")
+    else if op.startsWith "dt." then
+      match XixiKV.Datatype.Drv.step ds.dt (op :: a) with
+      | some (dt', out) => ({ ds with dt := dt' }, out)
       | none => (ds, "?")
     else stepMain ds (op :: a)
   | [] => (ds, "?")
